@@ -568,6 +568,8 @@ class FmtStr:
 
         return NotImplemented
 
+    __rmul__ = __mul__
+
     # TODO ensure empty FmtStr isn't a problem
 
     @property
